@@ -75,6 +75,12 @@ class C05:
             cases.append(base_cfg(exe=exe, nargs=nargs, bpdir=bpdir, desc=desc))
             if exe == "other":
                 cases[-1]["exe_name"] = rng.choice(OTHER_NAMES)
+        # api values that are no API version at all although they look like the supported one: the gate treats them like
+        # any other unreadable descriptor
+        for exe, nargs in (("detect", 2), ("build", 3)):
+            for api in ["0.+10", "+0.10", "0.10.0", " 0.10", "0.10 ", "0.1e1", "0.٠10"]:
+                cases.append(base_cfg(exe=exe, nargs=nargs, desc="malformed",
+                                      desc_text=f'api = "{api}"\n[buildpack]\nid = "verif/test"\nversion = "0.0.1"\n'))
         # every wrong name, with the argument counts detect and build would accept
         for nm, nargs in itertools.product(OTHER_NAMES, (2, 3)):
             cases.append(base_cfg(exe="other", exe_name=nm, nargs=nargs))
